@@ -59,6 +59,8 @@ def explore(desc, make_case, owns, signature, classify=None, sample_pred=None, m
             continue
         sc = case["scenario"]
         counters["scenarios"] += 1
+        if sc.spec.get("style"):
+            counters["machines_in_alternative_declaration_style"] = counters.get("machines_in_alternative_declaration_style", 0) + 1
         for fault in case.get("faults", [None]):
             try:
                 if use_alarm:
@@ -172,10 +174,21 @@ def spec_shape(spec):
              tuple(t["validators"])) for t in spec["transitions"]]
 
 
-def basic_case(rng, profile, hist=(5, 25), drivers=("sync",), styles=("send",), p_unknown=0.08, async_modes=("none",)):
+def maybe_style(rng, spec, p_style):
+    """With probability p_style the machine is written in another declaration style (C15's renderer:
+    from_/itself, grouped targets, event= keywords, Event objects, decorators, dict/enum state
+    containers, inheritance split, from_.any() spelled out) instead of the canonical one."""
+    if p_style and rng.random() < p_style and not spec.get("prelude") and not spec.get("mixin"):
+        from props import c15
+
+        spec["style"] = c15.plan_style(rng, spec)
+    return spec
+
+
+def basic_case(rng, profile, hist=(5, 25), drivers=("sync",), styles=("send",), p_unknown=0.08, async_modes=("none",), p_style=0.0):
     prof = dict(profile)
     prof["async_mode"] = rng.choice(async_modes)
-    spec = gen.gen_spec(rng, prof)
+    spec = maybe_style(rng, gen.gen_spec(rng, prof), p_style)
     driver = rng.choice(drivers) if spec["any_async"] or rng.random() < 0.2 else "sync"
     steps = [{"op": "construct", "val": gen.gen_valuation(rng, spec)}]
     if spec["any_async"] and rng.random() < 0.5:
